@@ -54,6 +54,7 @@ def SideOk (g : Group) (a : SideArg) (pfx : String) (want : Nat) : Prop :=
   match a with
   | .dims l => npointsOf l = want ∧ ∀ q ∈ g.ancs, q.base ≠ pfx
   | .badType => False
+  | .reuseBad _ _ => False
   | .reuse base w npts same => npts = want ∧ w.labels.length = w.units.length ∧
       (same = true → ancOf g base = some ⟨base, w, npts⟩) ∧ (same = false → ∀ q ∈ g.ancs, q.base ≠ base)
 
@@ -84,6 +85,7 @@ theorem createSide_link (g : Group) (a : SideArg) (pfx : String) (s2f : Bool) (w
       (∀ b x, ancOf g b = some x → ancOf (createSide g a pfx s2f).1 b = some x) := by
   cases a with
   | badType => exact hs.elim
+  | reuseBad _ _ => exact hs.elim
   | reuse base w npts same =>
     obtain ⟨hn, hl, hsame, hother⟩ := hs
     cases same with
@@ -126,6 +128,7 @@ theorem sideOk_of_validate (g : Group) (a : SideArg) (pfx : String) (want : Nat)
     SideOk g a pfx want := by
   cases a with
   | badType => simp only [validateSide] at hv; split at hv <;> simp at hv
+  | reuseBad _ _ => simp [validateSide] at hv
   | reuse base w npts same =>
     simp only [validateSide] at hv
     have hn : npts = want := by
